@@ -114,6 +114,23 @@ func runVector(v M) M {
 			out["got"] = M{"panic": fmt.Sprint(p)}
 		}
 	}()
+	// byte strings given as terms (AuthCodes are keyed hashes TLC can only write down, not compute)
+	ev := newEnv(M{}, nil)
+	if t, ok := v["bytesT"]; ok {
+		v["bytes"] = anyInts(ev.eval(m(t)))
+	}
+	if e, ok := v["exp"].(map[string]any); ok {
+		if t, ok := e["bytesT"]; ok {
+			e2 := M{}
+			for k, x := range e {
+				if k != "bytesT" {
+					e2[k] = x
+				}
+			}
+			e2["bytes"] = anyInts(ev.eval(m(t)))
+			out["exp"] = e2
+		}
+	}
 	switch v["kind"] {
 	case "decode":
 		// decoded three ways: exact-capacity slice, and inside a receive buffer with two
@@ -174,6 +191,46 @@ func runVector(v M) M {
 			got["bytes"] = toInts(buf.Bytes())
 		}
 		out["got"] = got
+	case "aes":
+		// serialise with the library's AES-128-CBC layer (a fresh buffer, then the same buffer reused, as a
+		// connection does), decrypt independently with the standard library, and decode with a fresh layer
+		var k [16]byte
+		copy(k[:], ints(v["key"]))
+		payload := ints(v["payload"])
+		got := M{}
+		buf := gopacket.NewSerializeBuffer()
+		for round, name := range []string{"fresh", "reused"} {
+			l, err := ipmi.NewAES128CBC(k)
+			if err != nil {
+				out["harnessError"] = err.Error()
+				return out
+			}
+			if round == 1 {
+				buf.Clear()
+			}
+			err = gopacket.SerializeLayers(buf, gopacket.SerializeOptions{FixLengths: true, ComputeChecksums: true}, l, gopacket.Payload(payload))
+			r := M{"err": err != nil}
+			if err == nil {
+				b := append([]byte(nil), buf.Bytes()...)
+				r["len"] = len(b)
+				if len(b) >= 32 && len(b)%16 == 0 {
+					r["iv"] = toInts(b[:16])
+					r["plain"] = toInts(ev.eval(M{"op": "aescbcdec", "key": M{"op": "bytes", "v": v["key"]},
+						"iv": M{"op": "bytes", "v": anyInts(b[:16])}, "ct": M{"op": "bytes", "v": anyInts(b[16:])}}))
+				}
+				d, _ := ipmi.NewAES128CBC(k)
+				dr := decodeInto(d, exact(b))
+				r["decErr"] = dr["err"]
+				if p, ok := dr["payload"]; ok {
+					r["decPayload"] = p
+				}
+				if pn, ok := dr["panic"]; ok {
+					r["panic"] = pn
+				}
+			}
+			got[name] = r
+		}
+		out["got"] = got
 	default:
 		out["harnessError"] = fmt.Sprint("unknown vector kind ", v["kind"])
 	}
@@ -230,4 +287,12 @@ func cmdVectors(args []string) {
 		f.Close()
 	}
 	fmt.Printf("{\"vectors\":%d,\"files\":%d}\n", len(res), files)
+}
+
+func anyInts(b []byte) []any {
+	o := make([]any, len(b))
+	for i, x := range b {
+		o[i] = float64(x)
+	}
+	return o
 }
